@@ -29,6 +29,7 @@ type resolvedTarget struct {
 	pkgHeaps string
 	heapName string
 	heapPfx  bool // heapName is a prefix (all component heaps of a field)
+	mapOf    string // maps(pkg.T): all map heaps whose type mentions pkg.T
 	// elems(s): every field (and nested array) of the objects the elements of slice s point to
 	isElems bool
 	eArr    Term            // Array Int Int: the element references of s's object (pre-state)
@@ -148,6 +149,10 @@ func (fr *Frame) resolveTarget(sc *Scope, mt ModTarget) []resolvedTarget {
 				out = append(out, resolvedTarget{text: mt.Text, heapName: pfx, heapPfx: true})
 				return out
 			}
+		}
+		if id, ok := e.Fun.(*EIdent); ok && id.Name == "maps" && len(e.Args) == 1 {
+			// maps(pkg.T): every map whose key or element type mentions pkg.T (all such map objects)
+			return []resolvedTarget{{text: mt.Text, mapOf: ExprString(e.Args[0])}}
 		}
 		if id, ok := e.Fun.(*EIdent); ok && id.Name == "bytes" && len(e.Args) == 0 {
 			// bytes(): the byte memory (restrict with an ensures such as rootBytesKept())
@@ -284,6 +289,12 @@ func (fr *Frame) havocTargets(st *State, tgs []resolvedTarget) {
 			for hn := range st.heaps {
 				if heapOfPkg(hn, t.pkgHeaps) {
 					delete(st.heaps, hn)
+				}
+			}
+		case t.mapOf != "":
+			for hn, srt := range fr.top.heapSorts {
+				if mapHeapOf(hn, t.mapOf) {
+					st.heaps[hn] = fr.ctx.Fresh("Hh:"+hn, srt)
 				}
 			}
 		case t.heapName != "" && t.heapPfx:
@@ -427,7 +438,7 @@ func (fr *Frame) frameObligations(st *State, preHeaps map[string]Term, alloc0 Te
 	for _, hn := range names {
 		skip := strings.HasPrefix(hn, "R:") // ghost attribute heaps are not part of frames
 		for _, t := range tgs {
-			if (t.pkgHeaps != "" && heapOfPkg(hn, t.pkgHeaps)) || (t.heapName != "" && (t.heapName == hn || (t.heapPfx && strings.HasPrefix(hn, t.heapName+".")))) {
+			if (t.pkgHeaps != "" && heapOfPkg(hn, t.pkgHeaps)) || (t.heapName != "" && (t.heapName == hn || (t.heapPfx && strings.HasPrefix(hn, t.heapName+".")))) || mapHeapOf(hn, t.mapOf) {
 				skip = true
 			}
 		}
@@ -599,10 +610,23 @@ func (fr *Frame) heapNamesOfElems(sliceT types.Type, set map[string]bool) {
 }
 
 // heapOfPkg: the heap holds fields or elements of a type declared in package pkg (by name).
+// mapHeapOf: hn is a map heap whose map type mentions the type name t.
+func mapHeapOf(hn, t string) bool {
+	return t != "" && (strings.HasPrefix(hn, "MapHas:") || strings.HasPrefix(hn, "MapVal:")) && strings.Contains(hn, t)
+}
+
 func heapOfPkg(hn, pkg string) bool {
 	for _, p := range []string{"F:", "M:", "M:*", "M:[]", "M:[]*", "B:", "B:*"} {
 		if strings.HasPrefix(hn, p+pkg+".") {
 			return true
+		}
+	}
+	// maps whose key or element type belongs to the package
+	if strings.HasPrefix(hn, "MapHas:") || strings.HasPrefix(hn, "MapVal:") {
+		for _, sep := range []string{"]", "*", "[", ":"} {
+			if strings.Contains(hn, sep+pkg+".") {
+				return true
+			}
 		}
 	}
 	return false
